@@ -57,6 +57,27 @@ theorem forEachCloser_exact (c : Cache) (x : Bytes) (h : c.WF) (hl : validBytes 
     e ∈ c.forEachCloser x ↔ e ∈ c.entries ∧ distanceLt x e.key c.locus = true :=
   Kad.forEachCloser_exact c x h hl hx he e
 
+/-- ⊢ prefix enumeration (`ForEachMatching`): for a well-formed request — the prefix holds at least `nbits` bits — it
+    does not fault and visits all and only the entries whose key has that prefix, each exactly once. (Before the
+    repair c8db1e5 the byte length of the prefix was rounded from the wrong quantity and the call panicked for
+    most whole-byte prefixes; the model follows the code, so this theorem was false for it.) -/
+theorem forEachMatching_exact (c : Cache) (pfx : Bytes) (nbits : Nat) (hl : validBytes c.locus) (hp : validBytes pfx)
+    (hn : nbits ≤ pfx.length * 8) :
+    ∃ es, c.forEachMatching pfx nbits = some es ∧
+      es.Perm (c.entries.filter (fun e => hasPrefix e.key pfx nbits)) := by
+  have hlen : matchLen nbits ≤ pfx.length := by
+    unfold matchLen
+    by_cases h8 : nbits % 8 > 0
+    · simp [h8]; omega
+    · simp [h8]; omega
+  have hk : validBytes (pfx.take (matchLen nbits)) := fun b hb => hp b (List.mem_of_mem_take hb)
+  refine ⟨(c.forEach (pfx.take (matchLen nbits))).filter (fun e => hasPrefix e.key pfx nbits), ?_, ?_⟩
+  · unfold Cache.forEachMatching
+    have h1 : ¬ matchLen nbits > pfx.length := by omega
+    have h2 : ¬ nbits > pfx.length * 8 := by omega
+    simp [h1, h2]
+  · exact (Kad.forEach_perm c _ hl hk).filter _
+
 -- non-vacuity: the counterexample of the unrepaired code (locus 00, entries 40 and 20, query 80) is well-formed
 -- and the repaired order puts 20 first
 example : (((Cache.new [0] 10 0).run [.update ⟨[64], [], 1, 0⟩ [], .update ⟨[32], [], 1, 0⟩ []]).forEach [128]).map (·.key)
